@@ -403,6 +403,23 @@ def r19b(P, R):
                     grows.append(c["method"])
             if c.get("k") == "AssignOp" and is_source(c["l"]):
                 grows.append("+=")
+        # ... and what is handed on towards register_file is that same String, moved: not a new String computed from it
+        # (`replace`, `format!`, `to_owned`, a normalising helper), whose capacity is whatever the allocator gave
+        rebuilt = []
+        for c in f.walk():
+            if c.get("k") in ("Call", "MethodCall") and (call_name(c) or "") in chain and call_name(c) != f.path:
+                args = ([c["recv"]] if c.get("k") == "MethodCall" else []) + c["args"]
+                for a_ in args:
+                    if peel_ty(a_.get("t", "") or "") != "alloc::string::String" or a_.get("t", "").startswith("&"):
+                        continue
+                    made = sorted({x[1] for x in pvf.atoms(a_) if x[0] == "call" and x[1] != rsp.path
+                                   and x[1].split("::")[-1] not in ("into", "from", "take", "branch", "from_residual", "unwrap", "expect")})
+                    if made:
+                        rebuilt.append("%s <- %s" % (short(call_name(c)), ", ".join(short(m) for m in made[:3])))
+        R.check("R19-b", "exact-capacity:moved@" + short(f.path), not rebuilt, "the source String is passed on as received",
+                "%s hands a String towards register_file that was produced by a call (%s) rather than the one received from the ABI: its capacity may exceed "
+                "its length, so into_boxed_str() reallocates after (ptr, len, capacity) were recorded and Drop frees with the wrong size/pointer"
+                % (f.path, "; ".join(rebuilt)), loc=f.loc())
         R.check("R19-b", "exact-capacity:no-growth@" + short(f.path), not grows, "the source String is only moved",
                 "%s applies %s to the source String before it is registered: capacity may exceed len, so into_boxed_str() reallocates "
                 "and the recorded (ptr, len, capacity) is stale when the task is dropped" % (f.path, grows), loc=f.loc())
